@@ -12,7 +12,7 @@ import (
 )
 
 func newVC(prog *Program, specs *SpecDB, fn *ssa.Function, fc *FuncContract, heapInfo map[string]*HeapInfo) *VC {
-	vc := &VC{prog: prog, specs: specs, fn: fn, contract: fc, declared: map[string]bool{}, heapInfo: heapInfo,
+	vc := &VC{prog: prog, specs: specs, fn: fn, contract: fc, declared: map[string]bool{}, refTerms: map[string]bool{}, heapInfo: heapInfo,
 		trusted: map[string]bool{}, assumes: map[string]bool{}, inlined: map[string]bool{}, kindCount: map[string]int{},
 		strConsts: map[string]string{}, typeTags: map[string]int{}, errGlobals: map[string]bool{}}
 	if fn != nil {
